@@ -269,3 +269,4 @@ def run(ctx: Ctx, repo: Repo, tier: str) -> None:
     _c12.rule_signature(ctx, repo, tier)
     _c16.rule_cli(ctx, repo)
     _c16.rule_identity(ctx, repo)
+    _c16.rule_split(ctx, repo)
